@@ -195,6 +195,11 @@ def run_kani_units(units, tier, jobs, keep=False, skip_playback=False):
             try:
                 res, meta = kani.run_harnesses(sc, u['package'], names, jobs=jobs, timeout=u.get('timeout', 3600), isolated=tuple(u.get('isolated', ())))
             except kani.ToolLimit as e:
+                if obls:
+                    # verdicts (possibly failed obligations) of the units already run must not be lost because a later
+                    # unit of the same property hits a tool limit: that unit becomes an undecided PART
+                    und_parts.append('kani unit %s %s: %s' % (u['package'], ','.join(names[:3]), str(e)[:1500]))
+                    continue
                 raise Undecided(str(e))
             can = res.get(u.get('canary', 'canary_must_fail'))
             eval_harness({'name': 'canary_must_fail', 'kind': 'must_fail'}, can)
